@@ -113,7 +113,9 @@ def gen_ops(rng, spec, nops, save_modes, p_save=0.12, structures=("package",)):
             ops.append(["llib", ln, rng.choice(["com.a.k1", "org.b.flag"]), rng.choice([None, 3, "w"])])
         elif r < 0.87:
             a = rng.choice(sorted(fg.INFO_ATTRS))
-            ops.append(["info", a, rng.choice(fg.INFO_ATTRS[a] + [None])])
+            # list-valued attributes default to []: assigning None to them is not a re-assignment of the held value
+            unset = [] if isinstance(fg.INFO_ATTRS[a][0], list) else None
+            ops.append(["info", a, rng.choice(fg.INFO_ATTRS[a] + [unset])])
         elif r < 0.89:
             ops.append(["kern", "%s|%s" % (rng.choice(fg.GLYPH_NAMES[:4]), rng.choice(fg.GLYPH_NAMES[:4])),
                         rng.choice([None, -20, 35])])
@@ -121,7 +123,7 @@ def gen_ops(rng, spec, nops, save_modes, p_save=0.12, structures=("package",)):
             ops.append(["group", rng.choice(["public.kern1.O", "public.kern2.H", "other", "grp2"]),
                         rng.choice([None, rng.sample(fg.GLYPH_NAMES, rng.randint(0, 3))])])
         elif r < 0.925:
-            ops.append(["feat", rng.choice(["", "# f\n", "feature kern {\n    pos A B -3;\n} kern;\n"])])
+            ops.append(["feat", rng.choice(["# g\n", "# f\n", "feature kern {\n    pos A B -3;\n} kern;\n"])])
         elif r < 0.94:
             ops.append(["lib", rng.choice(["com.a.k1", "com.a.k2", "org.new"]), rng.choice([None, 1, "s", {"a": [1]}])])
         elif r < 0.95:
@@ -253,7 +255,7 @@ class Shadow(object):
             else:
                 lib[op[2]] = op[3]
         elif k == "info":
-            if op[2] is None:
+            if op[2] is None or op[2] == []:
                 s["info"].pop(op[1], None)
             else:
                 s["info"][op[1]] = copy.deepcopy(op[2])
@@ -404,11 +406,14 @@ class Impl(object):
         for a, v in spec["info"].items():
             setattr(font.info, a, copy.deepcopy(v))
         font.guidelines = [fg._guideline_dict(g) for g in spec.get("guidelines", [])]
-        font.kerning.update({tuple(k.split("|")): v for k, v in spec["kerning"].items()})
-        font.groups.update(copy.deepcopy(spec["groups"]))
+        if spec["kerning"]:
+            font.kerning.update({tuple(k.split("|")): v for k, v in spec["kerning"].items()})
+        if spec["groups"]:
+            font.groups.update(copy.deepcopy(spec["groups"]))
         if spec["features"] is not None:
             font.features.text = spec["features"]
-        font.lib.update(copy.deepcopy(spec["lib"]))
+        if spec["lib"]:
+            font.lib.update(copy.deepcopy(spec["lib"]))
         for n, seed in spec["images"].items():
             font.images[n] = fg.png_bytes(seed)
         for n, seed in spec["data"].items():
@@ -667,6 +672,20 @@ def run_case(case, prop):
         shadow = Shadow(case["spec"])
         viol = []
         outs = []
+        blobs = Blobs()
+        # replay the blob numbering of model_lines (same order of first occurrence)
+        n_setup = len(model_lines(case)) - len(case["ops"])
+        _b = Blobs()
+        spec0 = case["spec"]
+        if case.get("origin", "disk") == "memory":
+            _b.of(part_value(spec0, "info"))
+            for part in ("kerning", "groups", "features", "lib"):
+                _b.of(part_value(spec0, part))
+        else:
+            for part in ("info", "groups", "kerning", "features", "lib"):
+                _b.of(part_value(spec0, part))
+        blobs = _b
+        outs.extend([Atom("ok")] * n_setup)
         stats = {"origin." + case.get("origin", "disk"): 1, "structure." + case.get("structure", "package"): 1}
         nsaves = 0
         if prop == "C06" and case.get("origin", "disk") == "disk":
@@ -687,7 +706,14 @@ def run_case(case, prop):
             except Exception as e:
                 status, extra = "err:" + type(e).__name__, str(e)[:300]
             stats["op." + op[0]] = stats.get("op." + op[0], 0) + 1
-            outs.append([status])
+            if op[0] != "save":
+                ok_expected = shadow.do(op)
+                if op[0] in PART_OF_OP and ok_expected:
+                    blobs.of(part_value(shadow.s, PART_OF_OP[op[0]]))
+            try:
+                outs.append(model_out(impl, op, status, blobs, True))
+            except Exception as e:
+                outs.append([Atom("harness-error"), type(e).__name__ + ": " + str(e)[:200]])
             if viol:
                 continue
             if op[0] == "save":
@@ -699,7 +725,6 @@ def run_case(case, prop):
                 nsaves += 1
                 viol.extend(check_saved(impl, shadow, prop, i, op, deep=(nsaves % 2 == 1), second_save=(nsaves % 2 == 0)))
                 continue
-            ok_expected = shadow.do(op)
             if (status == "ok") != bool(ok_expected):
                 viol.append(dict(clause="%s/op-outcome" % prop, signature="%s/op-outcome/%s" % (prop, op[0]), step=i, op=op,
                                  expected_ok=bool(ok_expected), observed=status, detail=extra))
@@ -741,3 +766,182 @@ def gen_case(rng, tier, save_modes, structures=("package", "zip"), maxops=None, 
             if rng.random() < 0.3:
                 pre_g.append([l["name"], gn])
     return dict(spec=spec, structure=structure, origin=origin, preread=pre, preread_glyphs=pre_g, ops=ops)
+
+
+# ---------------------------------------------------------------------------------------
+# correspondence with the persistence models (driver "persist")
+# ---------------------------------------------------------------------------------------
+import json as _json
+from sexp import Atom, opt
+
+IMG_MD5 = {hashlib.md5(fg.png_bytes(sd)).hexdigest(): sd for sd in range(0, 12)}
+DAT_MD5 = {hashlib.md5(fg.data_bytes(sd)).hexdigest(): 100 + sd for sd in range(0, 12)}
+
+
+class Blobs(object):
+    """hash-consing of part values into the opaque blob ids the models use (0 = empty / absent)"""
+
+    def __init__(self):
+        self.ids = {}
+
+    def of(self, v):
+        if v in (None, "", {}, []) or v == {"info": {}, "guidelines": []}:
+            return 0
+        key = _json.dumps(v, sort_keys=True)
+        if key not in self.ids:
+            self.ids[key] = len(self.ids) + 1
+        return self.ids[key]
+
+
+def part_value(spec, part):
+    if part == "info":
+        return {"info": spec["info"], "guidelines": spec.get("guidelines", [])}
+    if part == "lib":
+        return {k: v for k, v in spec["lib"].items() if k != "public.glyphOrder"}
+    return spec[part]
+
+
+PART_OF_OP = {"info": "info", "fguide": "info", "kern": "kerning", "group": "groups", "feat": "features", "lib": "lib"}
+
+
+def model_lines(case):
+    """the same history, abstracted to what the persistence models see"""
+    blobs = Blobs()
+    sh = Shadow(case["spec"])
+    spec = case["spec"]
+    lines = []
+    q = lambda x: [Atom("quiet"), x]
+    if case.get("origin", "disk") == "memory":
+        lines.append([Atom("initmem")])
+        first = True
+        for l in spec["layers"]:
+            if first:
+                lines.append(q([Atom("lrename"), "public.default", l["name"]]))
+                first = False
+            else:
+                lines.append(q([Atom("lnew"), l["name"]]))
+        lines.append(q([Atom("ldefault"), spec["default"]]))
+        lines.append(q([Atom("pset"), Atom("info"), blobs.of(part_value(spec, "info"))]))
+        for part in ("kerning", "groups", "features", "lib"):
+            b = blobs.of(part_value(spec, part))
+            if b:
+                lines.append(q([Atom("pset"), Atom(part), b]))
+        for n, sd in spec["images"].items():
+            lines.append(q([Atom("fset"), Atom("images"), n, sd]))
+        for n, sd in spec["data"].items():
+            lines.append(q([Atom("fset"), Atom("data"), n, 100 + sd]))
+    else:
+        names = [l["name"] for l in spec["layers"]]
+        lines.append([Atom("init"), [[n, sd] for n, sd in spec["images"].items()],
+                      [[n, 100 + sd] for n, sd in spec["data"].items()],
+                      [[p, blobs.of(part_value(spec, p))] for p in ("info", "groups", "kerning", "features", "lib")],
+                      [[n, i] for i, n in enumerate(names)], names.index(spec["default"]), spec["default"]])
+    for part in case.get("preread", []):
+        lines.append(q([Atom("ptouch"), Atom(part)]))
+    for op in case["ops"]:
+        k = op[0]
+        ok = sh.do(op) if k != "save" else True
+        if k in PART_OF_OP:
+            part = PART_OF_OP[k]
+            ln = [Atom("pset"), Atom(part), blobs.of(part_value(sh.s, part))] if ok else [Atom("ptouch"), Atom(part)]
+            lines.append(q(ln) if part == "lib" else ln)
+        elif k == "touch":
+            lines.append(q([Atom("ptouch"), Atom(op[1])]) if op[1] == "lib" else [Atom("ptouch"), Atom(op[1])])
+        elif k == "img":
+            lines.append([Atom("fdel"), Atom("images"), op[1]] if op[2] is None else [Atom("fset"), Atom("images"), op[1], op[2]])
+        elif k == "imgget":
+            lines.append([Atom("fget"), Atom("images"), op[1]])
+        elif k == "dat":
+            lines.append([Atom("fdel"), Atom("data"), op[1]] if op[2] is None else [Atom("fset"), Atom("data"), op[1], 100 + op[2]])
+        elif k == "datget":
+            lines.append([Atom("fget"), Atom("data"), op[1]])
+        elif k == "lnew":
+            lines.append([Atom("lnew"), op[1]])
+        elif k == "ldel":
+            lines.append([Atom("ldel"), op[1]])
+        elif k == "lrename":
+            lines.append([Atom("lrename"), op[1], op[2]])
+        elif k == "ldefault":
+            lines.append([Atom("ldefault"), op[1]])
+        elif k == "lorder":
+            lines.append([Atom("lorder"), list(op[1])])
+        elif k == "save":
+            lines.append([Atom("save"), Atom("SAVEMODE")])      # patched below
+        else:
+            lines.append([Atom("noop")])
+    # a save is in place iff the font has a path by then and the mode says so
+    has_path = case.get("origin", "disk") != "memory"
+    for ln, op in zip(lines[len(lines) - len(case["ops"]):], case["ops"]):
+        if op[0] == "save":
+            inplace = op[1] == "inplace" and has_path
+            ln[1] = Atom("inplace" if inplace else "as")
+            has_path = True
+    return lines
+
+
+def files_snapshot(fs):
+    ent = [Atom("set")] + [[n, e["data"] is not None, bool(e["dirty"])] for n, e in fs._data.items()]
+    return [ent, [Atom("set")] + list(fs._scheduledForDeletion.keys()), bool(fs.dirty)]
+
+
+def part_flags(font, part):
+    obj = getattr(font, "_" + part)
+    return [obj is not None, bool(obj.dirty) if obj is not None else False]
+
+
+def history_snapshot(ls):
+    res = []
+    for a in ls._layerActionHistory:
+        if a["action"] == "new":
+            res.append([Atom("new"), a["name"]])
+        elif a["action"] == "delete":
+            res.append([Atom("delete"), a["name"]])
+        elif a["action"] == "rename":
+            res.append([Atom("rename"), a["oldName"], a["newName"]])
+        elif a["action"] == "default":
+            res.append([Atom("default"), a["newDefault"], opt(a["oldDefault"])])
+    return res
+
+
+def layers_snapshot(font):
+    ls = font.layers
+    return [list(ls.layerOrder), opt(ls.defaultLayer.name if ls.defaultLayer is not None else None), history_snapshot(ls)]
+
+
+def disk_snapshot(impl, blobs):
+    import plistlib
+    font = impl.font
+    got = fg.read_ufo(font.path)
+    images = [Atom("set")] + [[n, IMG_MD5.get(h, 999)] for n, h in got["images"].items()]
+    data = [Atom("set")] + [[n, DAT_MD5.get(h, 999)] for n, h in got["data"].items()]
+    parts = [Atom("parts")] + [[Atom(p), blobs.of(part_value(got, p))] for p in ("info", "groups", "kerning", "features", "lib")]
+    from fontTools.ufoLib import UFOReader
+    with UFOReader(font.path, validate=False) as r:
+        lc = plistlib.loads(r.fs.readbytes("layercontents.plist"))
+    flags = [Atom("flags"), files_snapshot(font.images), files_snapshot(font.data),
+             [part_flags(font, p) for p in ("info", "groups", "kerning", "features")]]
+    return [[Atom("images"), images], [Atom("data"), data], parts,
+            [Atom("layercontents"), [[n, d == "glyphs"] for n, d in lc]], flags]
+
+
+def model_out(impl, op, status, blobs, ok_expected):
+    """what the persist driver prints for this op, computed from the real font"""
+    k = op[0]
+    font = impl.font
+    st = Atom("ok") if status == "ok" else [Atom("err"), Atom(status.split(":")[1])]
+    if k in PART_OF_OP or k == "touch":
+        part = PART_OF_OP.get(k, op[1] if k == "touch" else None)
+        if part == "lib":
+            return Atom("ok")
+        return [Atom("ok"), part_flags(font, part)]
+    if k in ("img", "imgget"):
+        return [st, files_snapshot(font.images)]
+    if k in ("dat", "datget"):
+        return [st, files_snapshot(font.data)]
+    if k in ("lnew", "ldel", "lrename", "ldefault", "lorder"):
+        return [st, layers_snapshot(font)]
+    if k == "save":
+        if status != "ok":
+            return [st]
+        return [Atom("ok"), disk_snapshot(impl, blobs)]
+    return Atom("ok")
